@@ -176,3 +176,56 @@ specialise(
     bounds="value length fixed per instance (2,3,4,5 = lengths of no/yes/true/false spellings)",
     weight=60,
 )
+
+
+# ---- e: parameter-derived bind attributes (audit) -----------------------------------------------
+@ob(
+    "C05",
+    "e.audit-params",
+    timeout=500,
+    kernel=K,
+    shims=("S1", "S2", "S3", "S4"),
+    symbolic="presence of track-changes, identify-user, track-changes-reasons and the location triple (4 symbolic booleans), their true/false values (2 booleans), a symbolic min-interval digit, presence of an explicit relevant cell (boolean)",
+    bounds="one audit row next to one text question",
+    weight=120,
+)
+def c05_audit(p_tc: bool, p_iu: bool, p_tr: bool, p_loc: bool, v_tc: bool, v_iu: bool, d0: int, p_rel: bool) -> bool:
+    """
+    pre: 48 <= d0 <= 57
+    post: _ == True
+    """
+    params = []
+    want = {"nodeset": "/data/meta/audit", "type": "binary"}
+    if p_tc:
+        params.append("track-changes=" + ("true" if v_tc else "false"))
+        want["odk:track-changes"] = "true" if v_tc else "false"
+    if p_iu:
+        params.append("identify-user=" + ("true" if v_iu else "false"))
+        want["odk:identify-user"] = "true" if v_iu else "false"
+    if p_tr:
+        params.append("track-changes-reasons=on-form-edit")
+        want["odk:track-changes-reasons"] = "on-form-edit"
+    if p_loc:
+        iv = S(d0)
+        params += ["location-priority=balanced", "location-min-interval=" + iv, "location-max-age=" + iv + "0"]
+        want["odk:location-priority"] = "balanced"
+        want["odk:location-min-interval"] = iv
+        want["odk:location-max-age"] = iv + "0"
+    row = {"type": "audit", "name": "audit"}
+    if params:
+        row["parameters"] = " ".join(params)
+    if p_rel:
+        row["relevant"] = "1=1"
+        want["relevant"] = "1=1"
+    survey, _w, _js = build_survey({"survey": [{"type": "text", "name": "q1", "label": "L"}, row]})
+    model = _model(survey)
+    mine = [b for b in _binds(model) if b.getAttribute("nodeset") == "/data/meta/audit"]
+    if len(mine) != 1:
+        return False
+    got = _attrs(mine[0])
+    if sorted(got.keys()) != sorted(want.keys()):
+        return False
+    for k in want:
+        if got[k] != want[k]:
+            return False
+    return True
